@@ -84,6 +84,7 @@ def poll_leaf(ip, loc, leaf):
         sender, req = leaf.data
         from t4 import sched_point
         yield from sched_point(ip, 'mailbox send ' + sender.kind)
+        p.effect('await', 'capacity', sender.kind)
         if may_pend(ip, 'mpsc.send'):
             return PENDING
         write_loc(loc, Leaf(k, leaf.data, True))
@@ -98,6 +99,7 @@ def poll_leaf(ip, loc, leaf):
         return ready(ok(UNIT))
     if k == 'oneshot.recv':
         cid = leaf.data
+        p.effect('await', 'reply', cid)
         if may_pend(ip, 'oneshot.recv'):
             return PENDING
         write_loc(loc, Leaf(k, leaf.data, True))
